@@ -71,6 +71,17 @@ template <class Gr> static void dumpBase(std::ostream &o, const Gr &g) {
             s << e.first << "," << e.second;
         }
         s << " | be=" << (E.begin() == E.end() ? 1 : 0);
+        // the same through two separate edges() calls per comparison (a view must not own a copy of the graph)
+        s << " | two: ";
+        first = true;
+        size_t guardCount = 0;
+        for (auto it2 = g.edges().begin(); it2 != g.edges().end() && guardCount < 100000; ++it2, ++guardCount) {
+            Edge e = *it2;
+            if (!first) s << " ";
+            first = false;
+            s << e.first << "," << e.second;
+        }
+        s << " | be2=" << (g.edges().begin() == g.edges().end() ? 1 : 0);
         return s.str();
     }) << "\n";
     o << "V " << guard([&] {
@@ -157,6 +168,8 @@ struct SlotBase {
     virtual bool query(const std::string &name, const Args &a, std::string &out) = 0;
     virtual SlotBase *clone() const = 0;
     virtual bool assignFrom(const SlotBase *src) = 0; // *this = *src (same dynamic type)
+    virtual SlotBase *moveClone() const = 0;              // move-constructed from a temporary copy
+    virtual bool moveAssignFrom(const SlotBase *src) = 0; // *this = std::move(temporary copy of *src)
     virtual bool eq(const SlotBase *o, bool &e, bool &ne) const = 0;
     // conversions / algorithms / io: default "not supported"
     virtual SlotBase *reversed(std::string &out) const { return nullptr; }
@@ -279,6 +292,14 @@ template <class L, bool UND> struct GrSlot : SlotBase {
         return degQ(name, a, out);
     }
     SlotBase *clone() const override { return new GrSlot<L, UND>(g); }
+    SlotBase *moveClone() const override { auto tmp = g; auto *r = new GrSlot<L, UND>(tmp); r->g = decltype(g)(std::move(tmp)); return r; }
+    bool moveAssignFrom(const SlotBase *src) override {
+        auto p = dynamic_cast<const GrSlot<L, UND> *>(src);
+        if (!p) return false;
+        auto tmp = p->g;
+        g = std::move(tmp);
+        return true;
+    }
     bool assignFrom(const SlotBase *src) override {
         auto p = dynamic_cast<const GrSlot<L, UND> *>(src);
         if (!p) return false;
@@ -444,6 +465,14 @@ template <bool UND> struct MgSlot : SlotBase {
         return degQ(name, a, out);
     }
     SlotBase *clone() const override { return new MgSlot<UND>(g); }
+    SlotBase *moveClone() const override { auto tmp = g; auto *r = new MgSlot<UND>(tmp); r->g = decltype(g)(std::move(tmp)); return r; }
+    bool moveAssignFrom(const SlotBase *src) override {
+        auto p = dynamic_cast<const MgSlot<UND> *>(src);
+        if (!p) return false;
+        auto tmp = p->g;
+        g = std::move(tmp);
+        return true;
+    }
     bool assignFrom(const SlotBase *src) override {
         auto p = dynamic_cast<const MgSlot<UND> *>(src);
         if (!p) return false;
@@ -550,6 +579,14 @@ template <bool UND> struct WgSlot : SlotBase {
         return degQ(name, a, out);
     }
     SlotBase *clone() const override { return new WgSlot<UND>(g); }
+    SlotBase *moveClone() const override { auto tmp = g; auto *r = new WgSlot<UND>(tmp); r->g = decltype(g)(std::move(tmp)); return r; }
+    bool moveAssignFrom(const SlotBase *src) override {
+        auto p = dynamic_cast<const WgSlot<UND> *>(src);
+        if (!p) return false;
+        auto tmp = p->g;
+        g = std::move(tmp);
+        return true;
+    }
     bool assignFrom(const SlotBase *src) override {
         auto p = dynamic_cast<const WgSlot<UND> *>(src);
         if (!p) return false;
@@ -913,18 +950,20 @@ int main(int argc, char **argv) {
                 bool e, ne;
                 if (get(a)->eq(get(b), e, ne)) { out << "R eq=" << e << " ne=" << ne << "\n"; ok = true; }
             }
-        } else if ((verb == "copy" || verb == "assign" || verb == "reversed" || verb == "todirected" || verb == "ofdirected") && w.size() == 3) {
+        } else if ((verb == "copy" || verb == "assign" || verb == "movecopy" || verb == "moveassign" || verb == "reversed" || verb == "todirected" || verb == "ofdirected") && w.size() == 3) {
             if (pi(w[1], a) && pi(w[2], b) && get(a)) {
                 SlotBase *src = get(a);
                 std::string r = "ok";
                 SlotBase *res = nullptr;
                 bool supported = true;
                 if (verb == "copy") res = src->clone();
-                else if (verb == "assign") {
+                else if (verb == "movecopy") res = src->moveClone();
+                else if (verb == "assign" || verb == "moveassign") {
+                    const bool mv = verb == "moveassign";
                     SlotBase *dst = get(b);
-                    if (dst && dst != src && dst->assignFrom(src)) res = nullptr;
-                    else if (dst == src) { dst->assignFrom(src); }
-                    else { res = src->clone(); }
+                    if (dst && dst != src && (mv ? dst->moveAssignFrom(src) : dst->assignFrom(src))) res = nullptr;
+                    else if (dst == src) { if (mv) dst->moveAssignFrom(src); else dst->assignFrom(src); }
+                    else { res = mv ? src->moveClone() : src->clone(); }
                     if (!res && dst) { // assigned in place
                         out << "R ok\n"; src->dump(out, a); dst->dump(out, b); ok = true;
                     }
